@@ -1118,7 +1118,8 @@ pub fn run_filtered(ctx: &mut Ctx, filter: &'static str) {
             .collect();
         // the last root only differs from what the initial state reaches when an inbound limit can bite after a first
         // inbound connection was let in
-        let racing = max_in.is_some_and(|m| m >= 1);
+        // (quick tier: only where the first inbound connection fills the limit)
+        let racing = if ctx.tier == crate::report::Tier::Thorough { max_in.is_some_and(|m| m >= 1) } else { max_in == Some(1) };
         let roots: &[&'static str] = match filter {
             "c06" if racing => &["", "p1-inbound-and-dial-in-flight+p2-outbound", "p1-two-connections", "p1-opening+two-inbound-pending"],
             "c06" => &["", "p1-inbound-and-dial-in-flight+p2-outbound", "p1-two-connections"],
